@@ -81,6 +81,29 @@ func Parse(input string, o *Obj) (res, errs string, inputUnchanged, optsUnchange
 	return digest(dump.String(r)), "", false, false
 }
 
+// reference digests: every input x object kind parsed once, on fresh objects, before anything else runs in this process.
+// They are what "parsed alone" means: a later parse alone could already be affected by package-level state.
+var reference = map[string][2]string{}
+
+// InitReferences must be called first.
+func InitReferences(kinds []string) {
+	for name := range Inputs {
+		for _, k := range kinds {
+			res, errs, _, _ := Parse(name, NewObj(k))
+			reference[name+"|"+k] = [2]string{res, errs}
+		}
+	}
+}
+
+// Alone returns the reference result of parsing the input with a fresh object of the kind.
+func Alone(input, kind string) (string, string) {
+	if r, ok := reference[input+"|"+kind]; ok {
+		return r[0], r[1]
+	}
+	res, errs, _, _ := Parse(input, NewObj(kind))
+	return res, errs
+}
+
 // Run executes one session: the calls share one object per kind; each result is compared (by TLC) with the
 // parse of the same bytes on a fresh equivalent object.
 func Run(id string, c Case, w *abs.Writer) (crashes []string) {
@@ -94,7 +117,7 @@ func Run(id string, c Case, w *abs.Writer) (crashes []string) {
 		}
 		cr := CallRec{Input: call.Input, Obj: call.Obj}
 		cr.Res, cr.Err, cr.InputUnchanged, cr.OptsUnchanged = Parse(call.Input, o)
-		cr.Alone, cr.AloneErr, _, _ = Parse(call.Input, NewObj(call.Obj))
+		cr.Alone, cr.AloneErr = Alone(call.Input, call.Obj)
 		if len(cr.Err) > 6 && cr.Err[:6] == "panic:" {
 			crashes = append(crashes, cr.Err)
 		}
